@@ -253,25 +253,29 @@ def r2(ctx):
     ctx.ob(run.qual, "written-for-every-family", bad is None and inside, run.loc(c), "read_list.write is reached on every path through the family loop when a read list is requested" if bad is None and inside else "a family can be processed without its reads being listed", cfg.describe_path(bad))
     # the phase set printed is that of the read's first variant, 1-based
     w = ctx.func(PH + ".ReadList.write")
-    ps = util.single_def(w.node, "phaseset")
     comp = util.single_def(w.node, "components")
-    okps = ps is not None and comp is not None and linear(ps) is not None
-    if okps:
-        lf = linear(ps)
-        loops = [n for n in walk_function(w.node) if isinstance(n, ast.For)]
-        rd = u(loops[0].target.elts[0]) if loops and isinstance(loops[0].target, ast.Tuple) else "read"
-        okps = lf == {"components[%s[0].position]" % rd: 1, "": 1}
-    ctx.ob(w.qual, "phase-set-of-first-variant-plus-1", okps, w.loc(), "phaseset = components[read[0].position] + 1" if okps else "phaseset is %s" % (u(ps) if ps is not None else "?"))
+    loops = [n for n in walk_function(w.node) if isinstance(n, ast.For)]
+    rd = u(loops[0].target.elts[0]) if loops and isinstance(loops[0].target, ast.Tuple) else "read"
+    # the printed row, element by element, with locals resolved (`phaseset`, `first_position`, a `row` tuple, ...)
+    prs = [p_ for p_ in ctx.prog.calls_in(w.node) if u(p_.func) == "print" and any(p_ is x for l_ in loops for x in ast.walk(l_))]
+    row = util.printed_shape(w.node, prs[0]) if len(prs) == 1 else None
+    keep = ("components", "haplotype", "sample", rd)
+    cells = [u(util.resolve_locals(w.node, e_[1], keep=keep)) for e_ in row] if row is not None and all(e_[0] == "one" for e_ in row) else None
+    if cells is None:
+        ctx.ob(w.qual, "phase-set-of-first-variant-plus-1", None, w.loc(), "cannot read the row that ReadList.write prints")
+    else:
+        want_ps = "components[%s[0].position] + 1" % rd
+        okps = comp is not None and want_ps in cells
+        ctx.ob(w.qual, "phase-set-of-first-variant-plus-1", okps, w.loc(prs[0]), "the row carries components[read[0].position] + 1 as phase set" if okps else "no cell of the printed row is %s: %s" % (want_ps, cells))
     okc = comp is not None and u(comp) == "sample_components[sample]" and u(util.single_def(w.node, "sample") or ast.Constant(None)) == "numeric_id_to_name[read.sample_id]"
     ctx.ob(w.qual, "components-of-the-reads-sample", okc, w.loc(), "components are those of the read's own sample" if okc else "components are not looked up by the read's own sample")
-    pr = [p for p in ctx.prog.calls_in(w.node) if u(p.func) == "print"]
-    okp = len(pr) == 1 and "phaseset" in [u(a) for a in pr[0].args] and "haplotype" in [u(a) for a in pr[0].args] and any(k.arg == "file" and u(k.value) == "self._file" for k in pr[0].keywords)
-    ctx.ob(w.qual, "row-printed-to-the-list", okp, w.loc(pr[0]) if pr else w.loc(), "one row per read with its phaseset and haplotype goes to the list file" if okp else "ReadList.write does not print phaseset/haplotype to self._file")
-    for a in pr[0].args if pr else []:
-        if ".position" in u(a):
-            lf = linear(a)
+    okp = cells is not None and "haplotype" in cells and any(c_.startswith("components[") for c_ in cells) and any(k.arg == "file" and u(k.value) == "self._file" for k in prs[0].keywords)
+    ctx.ob(w.qual, "row-printed-to-the-list", okp, w.loc(prs[0]) if prs else w.loc(), "one row per read with its phase set and haplotype goes to the list file" if okp else "ReadList.write does not print phase set / haplotype to self._file")
+    for c_ in cells or []:
+        if c_.endswith(".position") or ".position +" in c_ or ".position -" in c_:
+            lf = linear(ast.parse(c_, mode="eval").body)
             ok1 = lf is not None and lf.get("", 0) == 1
-            ctx.ob(w.qual, "one-based:%s" % u(a), ok1, w.loc(pr[0]), "%s is printed 1-based" % u(a) if ok1 else "%s prints a 0-based position" % u(a))
+            ctx.ob(w.qual, "one-based:%s" % c_, ok1, w.loc(prs[0]), "%s is printed 1-based" % c_ if ok1 else "%s prints a 0-based position" % c_)
 
 
 def r3(ctx):
@@ -368,6 +372,17 @@ def _stmt_parent(node):
     return n.parent if n is not None else None
 
 
+def _blocks_loop_var(n):
+    """Name bound to one block in `for _, b in blocks.items()` / `for b in blocks.values()`, else None."""
+    if not isinstance(n, ast.For):
+        return None
+    if u(n.iter) == "blocks.items()" and isinstance(n.target, ast.Tuple) and len(n.target.elts) == 2:
+        return u(n.target.elts[1])
+    if u(n.iter) == "blocks.values()" and isinstance(n.target, ast.Name):
+        return n.target.id
+    return None
+
+
 def _nearest_loop(n):
     p = getattr(n, "parent", None)
     while p is not None and not isinstance(p, (ast.For, ast.While)):
@@ -392,17 +407,17 @@ def r4(ctx):
         d = {k: linear(a1.slice).get(k, 0) - linear(a0.slice).get(k, 0) for k in set(linear(a1.slice)) | set(linear(a0.slice))}
         ok = {k: v for k, v in d.items() if v} == {"": 1}
         blockvar = u(a0.value)
-        outer = [n for n in block_loops if isinstance(n.target, ast.Tuple) and u(n.target.elts[1]) == blockvar and u(n.iter) == "blocks.items()"]
+        outer = [n for n in loops if _blocks_loop_var(n) == blockvar]
         ok = ok and len(outer) == 1
         srt = any(isinstance(c, ast.Call) and u(c.func) == "%s.sort" % blockvar for c in ast.walk(outer[0])) if outer else False
         ok = ok and srt
     ctx.ob(fr.qual, "event-between-consecutive-members-of-one-set", ok, fr.loc(e), "an event is reported between %s and %s of one sorted component" % (u(a0), u(a1)) if ok else "event positions %s, %s are not consecutive members of one sorted component" % (u(a0), u(a1)))
     # every phase set is examined: the block loop is only left when all blocks were seen, a block is skipped only when it is too short
-    for lp_ in [n for n in block_loops if u(n.iter) == "blocks.items()"]:
+    for lp_ in [n for n in loops if _blocks_loop_var(n) is not None]:
         fcfg = ctx.cfg(fr)
         exits = util.lexical_loop_exits(lp_)
         conts = [n for n in ast.walk(lp_) if isinstance(n, ast.Continue) and _nearest_loop(n) is lp_]
-        blockv = u(lp_.target.elts[1])
+        blockv = _blocks_loop_var(lp_)
         badc = [c for c in conts if not any(t.startswith("len(%s)" % blockv) or t.endswith("len(%s)" % blockv) for t, p_ in guard_atoms(fcfg, fcfg.node_of(c)))]
         okx = not exits and not badc
         ctx.ob(fr.qual, "every-phase-set-searched-for-recombinations", okx, fr.loc(exits[0]) if exits else (fr.loc(badc[0]) if badc else fr.loc(lp_)), "the loop over blocks has no break/return and skips a block only on its own length" if okx else ("the loop over blocks is left by `%s` before all phase sets were examined: recombinations of the remaining sets are not listed" % u(exits[0]) if exits else "a block is skipped for a reason other than its length"))
@@ -422,7 +437,7 @@ def r4(ctx):
             mods = [s for s in n.body if isinstance(s, ast.Assign) and isinstance(s.value, ast.BinOp) and isinstance(s.value.op, ast.Mod) and u(s.value.right) == "4"]
             divs = [s for s in n.body if isinstance(s, ast.Assign) and isinstance(s.value, ast.BinOp) and isinstance(s.value.op, ast.FloorDiv) and u(s.value.right) == "4"]
             if mods and divs and u(mods[0].value.left) == u(divs[0].targets[0]) == u(divs[0].value.left) and n.body.index(mods[0]) < n.body.index(divs[0]):
-                ok = any(isinstance(c, ast.Call) and isinstance(c.func, ast.Attribute) and c.func.attr == "append" and "trio.child" in u(c.func.value) and u(c.args[0]) == u(mods[0].targets[0]) for c in ast.walk(n))
+                ok = any(isinstance(c, ast.Call) and isinstance(c.func, ast.Attribute) and c.func.attr == "append" and ("%s.child" % u(n.target)) in u(c.func.value) and u(c.args[0]) == u(mods[0].targets[0]) for c in ast.walk(n))
     ctx.ob(wr.qual, "two-bits-per-trio-in-trios-order", ok, wr.loc(), "the transmission value is split into base-4 digits in trios order, digit t belongs to trios[t].child" if ok else "transmission values are not decoded as `% 4` then `// 4` per trio in trios order")
     pr = [p_ for p_ in ctx.prog.calls_in(wr.node) if u(p_.func) == "print"]
     for p_ in pr:
